@@ -22,6 +22,7 @@ CONSTANTS
   MaxPos = 2
   MaxKw = 1
   BugRuntimeIgnoresKwDefaults = FALSE
+  BugStringDropsAllowUnpack = FALSE
   FixedDunder = FALSE
 INVARIANT HeaderViewsAgree
 INVARIANT ViewsMatchInspect
